@@ -12,10 +12,18 @@ Decided (shape of the code, all inputs):
          html sniff and not json, plain otherwise), str is encoded before the bytes classification,
          non-Sized values are stringified with a *bound* callable, everything else is handed to
          _serialize_to_resp; _serialize_to_resp hands application/json to json_render and text/html to
-         tabular_render;
+         tabular_render; every str / bytes result -- the empty one included, an abstract result of its own in
+         the path enumeration -- takes the text branch: a truthiness / length test on the text value (or on its
+         encoded form) never decides between "text" and "not text" (type tests / ``is not None`` do);
   R17.d  ClasticJSONEncoder.default raises TypeError only when dev_mode is false and returns repr()
          when it is true; render_basic / render_json_dev / HTTPException.to_json are built in dev mode;
-  R17.e  the format->mime table and the branches of _serialize_to_resp agree; the default mime is served.
+  R17.e  the format->mime table and the branches of _serialize_to_resp agree; the default mime is served;
+  R17.f  every ``.format(...)`` / ``.format_map(...)`` / ``%`` in the render modules and in the clastic functions
+         reachable from the renderers formats a template made of string constants only (literals, named constants,
+         their concatenations / joins); endpoint data -- docstrings, labels, values -- is passed as an argument and
+         never concatenated or interpolated into the template (a brace / percent sign in it would raise => 500).
+Nothing is decided by running clastic code: paths are enumerated symbolically over the abstract results
+{non-empty str, non-empty bytes, '', b'', Sized non-text, unsized}.
 Declined: JSON validity / round trip, HTML table shapes (third-party Table), streaming -- values.
 """
 import ast
@@ -630,6 +638,10 @@ def _decide_typed(mod, ctx, T):
         if isinstance(atom, ast.Call) and isinstance(atom.func, ast.Name) and atom.func.id == 'isinstance' and len(atom.args) == 2 \
                 and not atom.keywords:
             t = _abs_type(atom.args[0], ctx, T)
+            if isinstance(atom.args[0], ast.Constant) and atom.args[0].value is None:
+                # the "not text" marker of a normalising helper / local
+                names = _class_names(mod, atom.args[1])
+                return any(n in ('object', 'NoneType') for n in names) if names else None
             if t not in ('str', 'bytes', 'sized', 'unsized'):
                 return None
             names = _class_names(mod, atom.args[1])
@@ -1222,6 +1234,21 @@ class _Templates(object):
             return self._of_value(v) if v is not None else T_UNKNOWN
         return T_UNKNOWN
 
+    def why(self, expr, at, depth=0):
+        """Where the data in a T_DATA template comes from (for the message): the binding(s) of the locals on the way."""
+        if isinstance(expr, ast.Name) and depth < 3 and at is not None:
+            for d in self.flow.reaching(expr.id, at):
+                v = d.value if d.kind == 'assign' and d.idx is None else (
+                    d.stmt.value if d.kind == 'aug' and isinstance(d.stmt, ast.AugAssign) else None)
+                if v is not None and self.kind(v, d.stmt) == T_DATA:
+                    inner = [self.why(n, d.stmt, depth + 1) for n in ast.walk(v) if isinstance(n, ast.Name) and n.id != expr.id]
+                    return '%s = %s' % (expr.id, short(v, 70)) + ''.join('; ' + x for x in inner[:2] if x)
+            return ''
+        if isinstance(expr, ast.AST) and depth < 3:
+            parts = [self.why(n, at, depth + 1) for n in ast.iter_child_nodes(expr)]
+            return '; '.join(x for x in parts if x)
+        return ''
+
     def _call_result(self, call, at, seen, depth):
         """A call of a parameterless-in-effect helper of the analysed tree that returns a constant template."""
         try:
@@ -1789,7 +1816,8 @@ def run(rep):
                           'format template is made of constants only' if ok else
                           '%s formats (%s) a template that already contains data (%s): a "{" / "}" / "%%" in that data -- an endpoint '
                           'docstring, a label, a value -- raises KeyError / ValueError / IndexError inside the renderer (a 500) or '
-                          'substitutes other fields' % (f.qualname, how, short(tmpl, 70)), f.mod, node)
+                          'substitutes other fields' % (f.qualname, how, short(tmpl, 70) + (
+                              ': ' + tp.why(tmpl, tp.stmt_of(node)) if not ok and tp.why(tmpl, tp.stmt_of(node)) else '')), f.mod, node)
         if unknown:
             raise AnalysisError('the template of %s in %s cannot be traced to constants or to data (%d such site(s))'
                                 % (short(unknown[0][1], 60), unknown[0][0].qualname, len(unknown)))
